@@ -155,6 +155,7 @@ def compile_perrun(ctx, files, timeout=300):
     pdir = os.path.join(ctx.build, 'P')
     os.makedirs(pdir, exist_ok=True)
     ok_all = True
+    failed = set()          # module names of per-run files that did not compile
     for f in files:
         src = os.path.join(COQ, 'PerRun', f)
         dst = os.path.join(pdir, f)
@@ -162,9 +163,13 @@ def compile_perrun(ctx, files, timeout=300):
         if not (os.path.exists(dst) and open(dst).read() == txt):
             open(dst, 'w').write(txt)
         names = re.findall(r'^\s*(?:Theorem|Lemma|Corollary|Example|Fact)\s+([A-Za-z0-9_\']+)', txt, re.M)
-        if not ok_all:
+        deps = set()
+        for m in re.finditer(r'^\s*From\s+P\s+Require\s+(?:Import|Export)?\s*([^.]*)\.', txt, re.M):
+            deps.update(m.group(1).split())
+        if deps & failed:
             for nm in names:
-                ctx.oblige('coq:%s:%s' % (f, nm), False, 'not checked: a file it depends on failed')
+                ctx.oblige('coq:%s:%s' % (f, nm), False, 'not checked: %s, which it imports, failed' % sorted(deps & failed)[0])
+            failed.add(f[:-2])
             continue
         t0 = time.time()
         ok, out = coqc(ctx, dst, timeout)
@@ -188,6 +193,7 @@ def compile_perrun(ctx, files, timeout=300):
             if not hit:
                 ctx.oblige('coq:%s' % f, False, first_error(out))
             ok_all = False
+            failed.add(f[:-2])
         ctx.cov.setdefault('coq_seconds', {})[f] = round(time.time() - t0, 1)
     return ok_all
 
